@@ -263,7 +263,11 @@ fn tail(path: &Path, n: usize) -> String {
 /// Turn a dead child into a violation. None = harness error (panic escaped a guard etc).
 fn death_violation(status: &std::process::ExitStatus, stderr_path: &Path, crumb: Option<(u64, u64, String)>) -> Result<Violation, String> {
     use std::os::unix::process::ExitStatusExt;
-    let err = tail(stderr_path, 30);
+    let err = {
+        // first 200 lines: the allocator / stack-overflow message precedes any backtrace
+        let all = fs::read(stderr_path).map(|b| String::from_utf8_lossy(&b).to_string()).unwrap_or_default();
+        all.lines().take(200).collect::<Vec<_>>().join("\n")
+    };
     let (seq, label) = match crumb {
         Some((_, s, l)) => (s as usize, l),
         None => (0, String::new()),
@@ -298,6 +302,13 @@ pub struct ExecResult {
     pub known_seen: BTreeMap<String, u64>,
 }
 
+/// set per scenario: is an allocator-exhaustion abort a violation (C09) or a resource outcome (C16)?
+pub static ALLOC_ABORT_IS_VIOLATION: std::sync::atomic::AtomicBool = std::sync::atomic::AtomicBool::new(true);
+
+fn is_resource_outcome(v: &Violation) -> bool {
+    !ALLOC_ABORT_IS_VIOLATION.load(std::sync::atomic::Ordering::Relaxed) && v.signature.starts_with("abort:alloc@")
+}
+
 static EXEC_COUNTER: std::sync::atomic::AtomicU64 = std::sync::atomic::AtomicU64::new(0);
 
 /// Execute a plan in a fresh child process.
@@ -312,6 +323,7 @@ pub fn exec_plan(scratch: &Path, scenario: &str, plan: &Plan, known: &BTreeSet<S
     fs::write(&kf, serde_json::to_string(&known.iter().collect::<Vec<_>>()).unwrap()).unwrap();
     let _ = fs::remove_file(&of);
     let mut cmd = Command::new(self_exe());
+    cmd.env("RUST_BACKTRACE", "0");
     cmd.arg("exec").arg(scenario).arg(&pf).arg(&of).arg("--crumb").arg(&cf).arg("--known").arg(&kf);
     if trace {
         cmd.arg("--trace");
@@ -334,7 +346,7 @@ pub fn exec_plan(scratch: &Path, scenario: &str, plan: &Plan, known: &BTreeSet<S
     } else {
         match death_violation(&status, &ef, read_crumb(&cf)) {
             Ok(v) => {
-                let v = if known.contains(&v.signature) { None } else { Some(v) };
+                let v = if known.contains(&v.signature) || is_resource_outcome(&v) { None } else { Some(v) };
                 // a death on a known signature still counts as seen
                 let mut ks = BTreeMap::new();
                 if v.is_none() {
@@ -459,6 +471,7 @@ fn spawn_worker(scenario: &str, seed: u64, tier: Tier, indices: &[u64], out: &Pa
     fs::write(list_file, indices.iter().map(|i| i.to_string()).collect::<Vec<_>>().join("\n")).unwrap();
     let _ = fs::remove_file(out);
     Command::new(self_exe())
+        .env("RUST_BACKTRACE", "0")
         .arg("worker")
         .arg(scenario)
         .arg("--seed")
@@ -538,7 +551,9 @@ pub fn run_sharded(scratch: &Path, scenario: &str, seed: u64, tier: Tier, indice
                     }
                     agg.deaths += 1;
                     dead.insert(i);
-                    if known.contains(&v.signature) {
+                    if is_resource_outcome(&v) {
+                        *agg.probes.entry("resource_abort".to_string()).or_insert(0) += 1;
+                    } else if known.contains(&v.signature) {
                         *agg.known_seen.entry(v.signature.clone()).or_insert(0) += 1;
                     } else {
                         agg.violations.entry(i).or_insert(v);
@@ -685,6 +700,9 @@ pub fn load_replay(path: &Path) -> (String, String, Plan, Option<Violation>) {
 pub fn replay_main(path: &Path, verbose: bool) -> i32 {
     let scratch = scratch_dir();
     let (property, scenario, plan, expect) = load_replay(path);
+    if let Some(sc) = scenario_by_name(&scenario) {
+        ALLOC_ABORT_IS_VIOLATION.store(sc.info().alloc_abort_is_violation, std::sync::atomic::Ordering::Relaxed);
+    }
     let res = exec_plan(&scratch, &scenario, &plan, &BTreeSet::new(), true);
     let _ = fs::remove_dir_all(&scratch);
     if verbose {
@@ -727,6 +745,7 @@ pub fn orchestrate(a: OrchArgs) -> i32 {
     let scen = scenario_by_name(&a.scenario).unwrap_or_else(|| harness_error("unknown scenario"));
     let info = scen.info();
     let property = info.property;
+    ALLOC_ABORT_IS_VIOLATION.store(info.alloc_abort_is_violation, std::sync::atomic::Ordering::Relaxed);
     let scratch = scratch_dir();
     println!("property={} scenario={} tier={} VERIF_SEED={} workers={}", property, info.name, a.tier.as_str(), a.seed, a.workers);
 
@@ -823,11 +842,18 @@ pub fn orchestrate(a: OrchArgs) -> i32 {
         for l in final_res.trace.iter().take(60) {
             println!("  | {}", l);
         }
-        let others: BTreeSet<&String> = agg.violations.values().map(|v| &v.signature).filter(|s| **s != final_v.signature).collect();
+        let mut others: BTreeMap<&String, (u64, u64)> = BTreeMap::new();
+        for (i, v) in agg.violations.iter() {
+            if v.signature != final_v.signature {
+                let e = others.entry(&v.signature).or_insert((0, *i));
+                e.0 += 1;
+            }
+        }
         if !others.is_empty() {
+            let all = std::env::var("VERIF_LIST_ALL").is_ok();
             println!("  other violation signatures seen in this batch ({}):", others.len());
-            for s in others.iter().take(20) {
-                println!("    {}", s);
+            for (s, (n, first)) in others.iter().take(if all { 10_000 } else { 20 }) {
+                println!("    {}  (x{}, first run {})", s, n, first);
             }
         }
         println!("VIOLATION property={} replay={}", property, rp.display());
